@@ -2,7 +2,8 @@
 
 use super::Case;
 use crate::engine::{guarded, Outcome, Part, PartKind, Tier};
-use crate::envcase::{run_env_case, EnvCase, EnvOracles};
+use crate::envcase::{run_env_case, EnvCase, EnvOracles, Instr, StepSpec};
+use crate::ops::Ref;
 use crate::gen::{env_case_strategy, EnvGenCfg};
 use proptest::prelude::*;
 
@@ -95,6 +96,66 @@ fn env_part(name: &str, cfg: EnvGenCfg, cases: u64) -> Part<Case> {
     Part { name: name.to_string(), kind: PartKind::Random { make: Box::new(move || env_case_strategy(cfg.clone()).prop_map(Case::Env).boxed()), cases } }
 }
 
+/// The 12 instructions of the small environment alphabet (asset `a`, tick 2, resting book of step 0:
+/// bids id0 3@98, id1 2@100; asks id2 3@104, id3 2@106).
+fn small_instr(k: usize, a: u8) -> Instr {
+    let exact = |i: u8| Ref { pref: 100 + i, ix: 0 };
+    match k {
+        0 => Instr::New { asset: a, bid: true, vol: 1, trader: 1, price: Some(100) },
+        1 => Instr::New { asset: a, bid: true, vol: 4, trader: 2, price: Some(104) },
+        2 => Instr::New { asset: a, bid: false, vol: 1, trader: 3, price: Some(104) },
+        3 => Instr::New { asset: a, bid: false, vol: 4, trader: 4, price: Some(100) },
+        4 => Instr::New { asset: a, bid: true, vol: 4, trader: 5, price: None },
+        5 => Instr::New { asset: a, bid: false, vol: 4, trader: 6, price: None },
+        6 => Instr::Cancel { asset: a, r: exact(1) },
+        7 => Instr::Cancel { asset: a, r: exact(2) },
+        // the first order created in this batch, if any (status New at submission)
+        8 => Instr::Cancel { asset: a, r: Ref { pref: 1, ix: 0 } },
+        9 => Instr::Modify { asset: a, r: exact(1), price: Some(104), vol: None },
+        10 => Instr::Modify { asset: a, r: exact(2), price: None, vol: Some(1) },
+        _ => Instr::Modify { asset: a, r: exact(3), price: Some(100), vol: Some(5) },
+    }
+}
+
+/// Every batch of exactly `k` instructions over the 12-instruction alphabet, processed after a fixed
+/// seeding step, for every seed in 0..seeds, on Env<3> and MarketEnv<2,3> (second asset holds the
+/// same resting book and receives the odd-numbered instructions).
+fn exhaustive_env_part(name: &str, k: usize, seeds: u64, toggle_off: bool) -> Part<Case> {
+    let batches = 12u64.pow(k as u32);
+    let total = batches * seeds * 2;
+    Part {
+        name: name.to_string(),
+        kind: PartKind::Exhaustive {
+            total,
+            decode: Box::new(move |i| {
+                let market = i % 2 == 1;
+                let i = i / 2;
+                let seed = i % seeds;
+                let mut b = i / seeds;
+                let n_assets = if market { 2 } else { 1 };
+                let mut seed_step = vec![];
+                for a in 0..n_assets as u8 {
+                    seed_step.push(Instr::New { asset: a, bid: true, vol: 3, trader: 9, price: Some(98) });
+                    seed_step.push(Instr::New { asset: a, bid: true, vol: 2, trader: 9, price: Some(100) });
+                    seed_step.push(Instr::New { asset: a, bid: false, vol: 3, trader: 9, price: Some(104) });
+                    seed_step.push(Instr::New { asset: a, bid: false, vol: 2, trader: 9, price: Some(106) });
+                }
+                // asset-major submission keeps per-asset ids 0..3 in both environments
+                let mut instrs = vec![];
+                for j in 0..k {
+                    let code = (b % 12) as usize;
+                    b /= 12;
+                    let a = if market { (j % 2) as u8 } else { 0 };
+                    instrs.push(small_instr(code, a));
+                }
+                let steps = vec![StepSpec { toggle: None, instrs: seed_step }, StepSpec { toggle: if toggle_off { Some(false) } else { None }, instrs }, StepSpec { toggle: if toggle_off { Some(true) } else { None }, instrs: vec![] }];
+                Some(Case::Env(EnvCase { kind_assets: if market { 2 } else { 0 }, levels: 3, ticks: vec![2, 2], t0: 0, step_size: 16, trading: true, seed: seed.wrapping_mul(0x9E37_79B9_7F4A_7C15) ^ crate::engine::verif_seed(), steps, drain: true }))
+            }),
+            description: format!("after a fixed seeding step (2 bids, 2 asks resting per asset), every batch of exactly {} instructions over a 12-instruction alphabet (4 limit orders incl. crossing ones, 2 market orders, 3 cancels incl. one of an order of the same batch, 3 modifies: crossing re-price, pure reduction, re-price with volume) x {} seeds x {{Env<3>, MarketEnv<2,3>}}{}, then an empty step and two draining steps", k, seeds, if toggle_off { ", batch processed while trading is disabled" } else { "" }),
+        },
+    }
+}
+
 pub fn parts(id: &'static str, tier: Tier) -> Option<(Vec<Part<Case>>, String)> {
     let common = "An environment case is a seed, a configuration (Env<L> for L in 1..24 or MarketEnv<A,L> for A in 1..4; tick sizes 1..10; step size) and a sequence of steps, each a batch of new-order / cancel / modify instructions whose order references are resolved at submission time (including orders created in the same batch), followed by two draining steps. ";
     match id {
@@ -108,7 +169,7 @@ pub fn parts(id: &'static str, tier: Tier) -> Option<(Vec<Part<Case>>, String)> 
             tog.toggle_pct = 15;
             tog.start_off_pct = 20;
             Some((
-                vec![env_part("env-random-single", single, tier.pick(20_000, 600_000)), env_part("env-random-multi", multi, tier.pick(12_000, 300_000)), env_part("env-random-toggles", tog, tier.pick(8_000, 200_000))],
+                vec![exhaustive_env_part("exhaustive-batches-of-2", 2, tier.pick(24, 64), false), exhaustive_env_part("exhaustive-batches-of-3", 3, tier.pick(4, 24), false), env_part("env-random-single", single, tier.pick(20_000, 600_000)), env_part("env-random-multi", multi, tier.pick(12_000, 300_000)), env_part("env-random-toggles", tog, tier.pick(8_000, 200_000))],
                 format!("{}Oracle: after every step the set of processing orders consistent with everything observed so far (new orders pinned to position arrival-start, all arrangements of the other instructions) is replayed on REAL plain OrderBooks and must be non-empty, i.e. some permutation of the batch explains the environment's orders, trades and views exactly; plus clock = start+step size, per-step traded volume = that step's trades, empty steps change nothing. Non-trivial: at least one batch whose outcome depends on the processing order (measured by replaying the reversed order on the plain book).", common),
             ))
         }
@@ -116,14 +177,14 @@ pub fn parts(id: &'static str, tier: Tier) -> Option<(Vec<Part<Case>>, String)> 
             let mut c = EnvGenCfg::base();
             c.kinds = 1;
             c.toggle_pct = 5;
-            Some((vec![env_part("marketenv-random", c, tier.pick(12_000, 300_000))], format!("{}MarketEnv cases: schedule inference as in C08 with an array of stand-alone real books as reference, each asset's instructions replayed on its own book at the candidate's global times. Non-trivial: >= 2 assets with resting orders and an order-sensitive batch.", common)))
+            Some((vec![exhaustive_env_part("exhaustive-batches-of-2", 2, tier.pick(16, 64), false), exhaustive_env_part("exhaustive-batches-of-3", 3, tier.pick(2, 16), false), env_part("marketenv-random", c, tier.pick(12_000, 300_000))], format!("{}MarketEnv cases: schedule inference as in C08 with an array of stand-alone real books as reference, each asset's instructions replayed on its own book at the candidate's global times. Non-trivial: >= 2 assets with resting orders and an order-sensitive batch.", common)))
         }
         "C10" => {
             let mut c = EnvGenCfg::base();
             c.toggle_pct = 5;
             c.large_batch_pct = 0;
             Some((
-                vec![env_part("env-random-submissions", c, tier.pick(40_000, 1_000_000))],
+                vec![exhaustive_env_part("exhaustive-batches-of-3", 3, tier.pick(4, 24), false), env_part("env-random-submissions", c, tier.pick(150_000, 2_000_000))],
                 format!("{}Oracle: the complete observable state of the environment (live book snapshot per asset, every recorded series, cached level-2) is compared before and after EVERY submission and must be identical except for exactly one appended order record with status New; the cached level-2 must equal the live book's level-2 after construction, after every submission and after every step. Non-trivial: a submission that would trade or move the touch if applied directly, against a non-empty book.", common),
             ))
         }
@@ -132,7 +193,7 @@ pub fn parts(id: &'static str, tier: Tier) -> Option<(Vec<Part<Case>>, String)> 
             c.large_batch_pct = 0;
             c.w_new = 75;
             Some((
-                vec![env_part("env-random-records", c, tier.pick(40_000, 1_000_000))],
+                vec![exhaustive_env_part("exhaustive-batches-of-3", 3, tier.pick(4, 24), false), env_part("env-random-records", c, tier.pick(200_000, 3_000_000))],
                 format!("{}Oracle: after step k every recorded series (touch prices, side volumes, touch volumes and counts, per-level volumes and counts for each of the L levels, per-step traded volume) has exactly k entries, entry k-1 equals the value read from the live book after the step (bid series vs bid getters), earlier entries are unchanged, and traded volume k-1 equals both the volume logged during the step and the volume of trades time-stamped within it. Non-trivial: a step whose book differs between bid and ask in total volume, touch volume and touch count and has an occupied level >= 1 on both sides.", common),
             ))
         }
@@ -148,7 +209,7 @@ pub fn parts(id: &'static str, tier: Tier) -> Option<(Vec<Part<Case>>, String)> 
             c.start_off_pct = 30;
             c.large_batch_pct = 0;
             c.market_pct = 25;
-            Some((vec![env_part("env-random-toggles", c, tier.pick(15_000, 400_000))], format!("{}Environment cases: trading toggled between steps: no trade is logged during a step processed while disabled, market orders processed then are rejected.", common)))
+            Some((vec![exhaustive_env_part("exhaustive-batches-of-2-while-disabled", 2, tier.pick(8, 32), true), env_part("env-random-toggles", c, tier.pick(15_000, 400_000))], format!("{}Environment cases: trading toggled between steps: no trade is logged during a step processed while disabled, market orders processed then are rejected.", common)))
         }
         "C05" => {
             let mut c = EnvGenCfg::base();
